@@ -53,6 +53,11 @@ CHECKS = {
             'All 64 DAGs on 4 actions x iteration-group shapes x repetitions 1..3 (and stop instants) are confirmed to run every action after its prerequisites, non-iterated ones once, iterated ones round-robin the declared number of times, and to terminate; compiled @Ground/deep-recursion plans return the same table for a predicate whether asked alone or with others, never read a table before it is produced, and satisfy the shape invariant the scheduler proof assumes.',
             'Trusted: CrossHair, z3, lv/sqlsem.py. Stubs: display functions, os/open for the stop file. Bound: 4 actions (6 for two groups), name assignments sampled (2 quick / 4 thorough).',
             'DESIGN.md §3 C14', 'kern'),
+    'C16': ('other',
+            'CrossHair symbolic execution of the real reference_algebra.Unify over symbolic type terms, partitioned by top-level constructors so that every partition reaches "Confirmed over all paths"; postcondition = independent structural meet; counterexamples replayed on the real code',
+            'For all ordered pairs of type terms of depth <=1 (quick: one record field; thorough: two fields and lists inside records) Unify is confirmed symmetric, idempotent, equal to the structural meet on both references, and clashing exactly when the meet is empty; for constructor triples x all atom payloads the result is independent of the unification order when clash-free.',
+            'Trusted: CrossHair, the harness-side meet. Outside: depth 3, more than two fields, cyclic references.',
+            'DESIGN.md §3 C16', 'kern'),
     'C17': ('translation_validation',
             'histories of CLI-style runs executed by a symbolic statement interpreter (DROP/CREATE/ATTACH + SELECT) over a symbolic database file; each assertion is a z3 equivalence between stores/rows; sat models replayed on a real SQLite file',
             'For each catalogue program with grounded intermediates and each enumerated history of <=3 runs, z3 proves for every database content within the bound: dependant rows == program without @Ground; table of P == P alone; printing P writes nothing; re-runs return the same rows and leave the same tables.',
